@@ -227,21 +227,39 @@ def file_bracketing(ctx):
 def env_rules(ctx):
     prog = ctx.prog
     R6 = ctx.rule("R6", "environment precedence: process < global < certificate/account < identifier")
-    impls = [b for k, b in prog.bodies.items() if k.endswith("as acmed::hooks::HookEnvData>::set_env")]
-    ctx.floor(R6, "set_env implementations", len(impls), 3)
+    impls = [prog.body(k) for k, b in prog.bodies.items() if k.endswith("as acmed::hooks::HookEnvData>::set_env")]      # helper-transparent views
+    ctx.floor(R6, "set_env implementations", len(impls), 1)
     for b in impls:
-        ins = b.calls_to("std::collections::hash::map::HashMap::insert")
-        oi = b.calls_to("std::collections::hash::map::Entry::or_insert", "std::collections::hash::map::Entry::or_insert_with")
+        # writes into the hook data's env map, classified by where the written value comes from
+        writes = [c for c in b.calls if c.bb in b.live_blocks() and ((c.name or "") in WRITE_FNS or (c.fn or "") in WRITE_FNS)]
+
+        def fed_by_process_env(c):
+            sls = [arg_origins(c, k) for k in range(1, len(c.args))]      # the written key/value, not the map that receives it
+            return any(any(x.is_("std::env::vars", "std::env::vars_os") for x in sl.calls) or any("std::env::vars" in v for v in sl.via) for sl in sls)
+
+        def fed_by_param(c):
+            return any(arg_origins(c, k).has_leaf("param:2") for k in range(1, len(c.args)))
+        proc = [c for c in writes if fed_by_process_env(c)]
+        conf = [c for c in writes if fed_by_param(c) and not fed_by_process_env(c)]
         ev = b.calls_to("std::env::vars", "std::env::vars_os")
-        for c in ins:
-            srcs = arg_origins(c, 1).calls + arg_origins(c, 2).calls
-            via = arg_origins(c, 1).via | arg_origins(c, 2).via
-            ctx.require(R6, not any(x.is_("std::env::vars", "std::env::vars_os") for x in srcs) and not any("std::env::vars" in v for v in via), c.where(),
-                        "%s: a process environment variable never overwrites an existing entry (HashMap::insert is not fed by env::vars)" % short(b.key), [short(b.key), "process-env-overrides"])
-            ctx.require(R6, arg_origins(c, 1).has_leaf("param:2") or arg_origins(c, 2).has_leaf("param:2"), c.where(), "%s: configured variables are inserted from the `env` argument" % short(b.key), [short(b.key), "configured-env"])
+        for c in proc:
+            m = (c.fn or c.name).rsplit("::", 1)[-1]
+            fill_only = m in ("or_insert", "or_insert_with")
+            if not fill_only and m == "insert":
+                # `if !map.contains_key(&k) { map.insert(k, v) }`
+                guards = []
+                for g in b.calls_to("std::collections::hash::map::HashMap::contains_key"):
+                    t_, f_ = call_true_false_edges(b, g)
+                    guards += f_
+                okk, hit = unreachable_without(b, [c.bb], removed_edges=guards)
+                fill_only = bool(guards) and okk
+            ctx.require(R6, fill_only, c.where(), "%s: a process environment variable never overwrites an existing entry (it only fills missing keys)" % short(b.key), [short(b.key), "process-env-overrides"])
         if ev:
-            ctx.require(R6, bool(oi), ev[0].where(), "%s: process variables only fill missing keys (entry().or_insert)" % short(b.key), [short(b.key), "process-env-fill"])
-        ctx.require(R6, bool(ins), "%s:%s" % (b.file, b.line), "%s inserts the configured variables" % short(b.key), [short(b.key), "no-insert"])
+            ctx.require(R6, bool(proc), ev[0].where(), "%s: process variables fill missing keys" % short(b.key), [short(b.key), "process-env-fill"])
+        for c in conf:
+            m = (c.fn or c.name).rsplit("::", 1)[-1]
+            ctx.require(R6, m in ("insert", "extend"), c.where(), "%s: configured variables overwrite earlier entries (insert/extend, not or_insert)" % short(b.key), [short(b.key), "configured-env"])
+        ctx.require(R6, bool(conf), "%s:%s" % (b.file, b.line), "%s inserts the configured variables" % short(b.key), [short(b.key), "no-insert"])
     hb = prog.async_body("acmed::certificate::Certificate::call_challenge_hooks")
     se = [c for c in hb.calls if c.fn == "acmed::hooks::HookEnvData::set_env" and c.bb in hb.live_blocks()]
     ctx.floor(R6, "set_env calls in call_challenge_hooks", len(se), 2)
@@ -312,10 +330,11 @@ def template_rules(ctx):
     flt = [c for c in envc if c.name.endswith("::add_filter")]
     names = [x.get("str") for c in flt for x in arg_origins(c, 1).consts if "str" in x]
     ctx.require(R7, "rev_labels" in names, "%s:%s" % (rtb.file, rtb.line), "the documented rev_labels filter is registered (%s)" % names, ["template::render_template", "rev_labels"])
-    ge = [b for k, b in prog.bodies.items() if k.endswith("as acmed::hooks::HookEnvData>::get_env")]
+    ge = [prog.body(k) for k, b in prog.bodies.items() if k.endswith("as acmed::hooks::HookEnvData>::get_env")]
     for b in ge:
         sl = origins(b, {"l": 0, "p": []})
-        ctx.require(R7, any(f == "env" for a, f in sl.fields), "%s:%s" % (b.file, b.line), "%s iterates the data's own env map" % short(b.key), [short(b.key), "get_env"])
+        own = any(f == "env" for a, f in sl.fields) or (sl.has_leaf("param:1") and not sl.has_leaf("param:2") and (sl.via_any("std::collections::hash::map::HashMap::iter") or any(x.is_("std::collections::hash::map::HashMap::iter") for x in sl.calls)))
+        ctx.require(R7, own, "%s:%s" % (b.file, b.line), "%s iterates the data's own env map" % short(b.key), [short(b.key), "get_env"])
 
 
 def doc_rules(ctx):
@@ -354,9 +373,13 @@ def doc_rules(ctx):
             ctx.require(R8, names == prog.adt_fields(st), "acmed/src/hooks.rs", "%s is exposed to templates under its field names %s" % (st.rsplit("::", 1)[1], names), [st, "serialised-names"])
 
 
+WRITE_FNS = ("std::collections::hash::map::HashMap::insert", "std::collections::hash::map::Entry::or_insert", "std::collections::hash::map::Entry::or_insert_with",
+             "core::iter::traits::collect::Extend::extend", "std::collections::hash::map::HashMap::extend")
+
+
 def short(k):
     if " as " in k:
-        return k.split(" as ")[0].lstrip("<").rsplit("::", 1)[1] + "::" + k.rsplit("::", 1)[1]
+        return k.split(" as ")[0].lstrip("<").rsplit("::", 1)[-1] + "::" + k.rsplit("::", 1)[-1]
     return "::".join(k.split("::")[-2:])
 
 
@@ -364,6 +387,35 @@ def status_rule(ctx, R2):
     """shared with C05 (a challenge is reported ready only after its hooks SUCCEEDED): what call_single calls a success"""
     prog = ctx.prog
     sb = prog.async_body(SINGLE)
+    # call_single EVALUATED for exit status success()? x allow_failure? x code Some|None (a signal death has no code): it fails
+    # exactly when the status is unsuccessful and allow_failure is not set. When it cannot be evaluated the shape rules below decide.
+    from ..absint import NONE, Val, marker, run, some, struct_val, success_model, variant, vbool, vstr
+    H_ = "acmed::hooks::Hook"
+    tab = {}
+    for su in (True, False):
+        for al in (True, False):
+            for co in (True, False):
+                def ov(cs, args, su=su, co=co):
+                    n = cs.name or ""
+                    if n.endswith("ExitStatus::success"):
+                        return vbool(su)
+                    if n.endswith("ExitStatus::code"):
+                        return some(Val("int", 0 if su else 3)) if co else NONE
+                    return None
+                hook = struct_val(prog, H_, {"name": vstr("h"), "hook_type": marker("T"), "cmd": vstr("cmd"), "args": NONE, "stdin": variant("acmed::hooks::HookStdin", "None"),
+                                             "stdout": NONE, "stderr": NONE, "allow_failure": vbool(al)})
+                r = run(sb, {1: Val("adt", [marker("LOGGER"), marker("DATA"), Val("ref", hook)], ("coroutine", "state"))}, success_model(sb, ov), max_steps=80000)
+                ret = r.ret.deref() if r.kind == "return" and r.ret is not None else None
+                st_calls = [c for c, a, res in r.calls if c.fn == "core::future::future::Future::poll" and c.res and "async_process" in c.res]
+                tab[(su, al, co)] = (r.kind, ret.extra[1] if ret is not None and ret.k == "adt" and ret.extra else None, bool(st_calls))
+    evaluated = all(v[0] == "return" and v[1] in ("Ok", "Err") for v in tab.values())
+    ctx.notes.append("call_single evaluated on %d/8 (success, allow_failure, code) combinations" % sum(1 for v in tab.values() if v[0] == "return"))
+    if evaluated:
+        for (su, al, co), (kind, res, awaited) in sorted(tab.items()):
+            want = "Ok" if (su or al) else "Err"
+            ctx.require(R2, res == want and awaited, "%s:%s" % (sb.file, sb.line), "exit status %s, allow_failure %s, %s -> %s (expected %s; child awaited: %s)"
+                        % ("success" if su else "failure", al, "exit code" if co else "killed by a signal", res, want, awaited), [SINGLE, "status-table", str(su), str(al), str(co)])
+        return
     succ = sb.calls_to("std::process::ExitStatus::success")
     ctx.floor(R2, "ExitStatus::success test", len(succ), 1)
     okb, errb, fwd = result_return_kinds(sb)
